@@ -174,6 +174,21 @@ fn rename(g: &G, from: u32, to: u32) -> G {
             vs.iter().map(|v| if *v == from { to } else { *v }).collect(),
             rgs(gs, from, to),
         ),
+        G::Match(kind, t, arms) => G::Match(
+            *kind,
+            rt(t, &mut f),
+            arms.iter()
+                .map(|(pats, body)| {
+                    // names in a pattern are local to the arm: an arm binding `from` shadows it
+                    if pats.iter().any(|p| p.has_var(&T::V(from))) {
+                        (pats.clone(), body.clone())
+                    } else {
+                        (pats.clone(), rgs(body, from, to))
+                    }
+                })
+                .collect(),
+        ),
+        G::Call(n, ts) => G::Call(n.clone(), ts.iter().map(|t| rt(t, &mut f)).collect()),
     }
 }
 
@@ -220,6 +235,20 @@ pub fn subst_goal(g: &G, x: u32, t: &T) -> G {
             }
         }
         G::Project(vs, gs) => G::Project(vs.clone(), sg(gs)),
+        G::Match(kind, tt, arms) => G::Match(
+            *kind,
+            rt(tt, &mut f),
+            arms.iter()
+                .map(|(pats, body)| {
+                    if pats.iter().any(|p| p.has_var(&T::V(x))) {
+                        (pats.clone(), body.clone())
+                    } else {
+                        (pats.clone(), sg(body))
+                    }
+                })
+                .collect(),
+        ),
+        G::Call(n, ts) => G::Call(n.clone(), ts.iter().map(|t| rt(t, &mut f)).collect()),
     }
 }
 
@@ -505,6 +534,14 @@ pub fn atoms_of_goals(gs: &[G], out: &mut Vec<T>) {
                 coll.iter().for_each(|t| at(t, out));
                 atoms_of_goals(body, out);
             }
+            G::Match(_, t, arms) => {
+                at(t, out);
+                for (pats, body) in arms {
+                    pats.iter().for_each(|p| at(p, out));
+                    atoms_of_goals(body, out);
+                }
+            }
+            G::Call(_, ts) => ts.iter().for_each(|t| at(t, out)),
             G::Succeed | G::Fail | G::Probe(_) => {}
         }
     }
